@@ -78,6 +78,9 @@ def same_arrays(a, b):
                for x, y in zip(a, b))
 
 
+SYNDROME_DTYPES = [np.uint8, np.int64, np.uint8, np.int32, np.uint64, np.int64]
+
+
 class Stepper:
     """One decoder object driven through a history, checked after every step
     against the model (fresh decoder per syndrome) and the snapshots."""
@@ -115,7 +118,9 @@ class Stepper:
         j = len(self.seq)
         n, tag = self.n, self.tag
         self.seq.append(s)
-        arg = s.copy()
+        # the caller's array in the integer dtypes callers use (numpy's
+        # default int included: np.asarray(x, dtype=int) would alias it)
+        arg = s.astype(SYNDROME_DTYPES[(j + len(self.name)) % len(SYNDROME_DTYPES)])
         before = arg.copy()
         c = np.asarray(self.dec.decode(arg))
         if arg.dtype != before.dtype or not np.array_equal(arg, before):
